@@ -31,7 +31,7 @@ MANIFEST = {
 GEN = ["OptDev"]
 RULE = ("cases = EDFA calls on random optical fields (N in {1,2,3,5,8,16,33,64,257}, 1/2 pol, incoming noise none/random/zero-sum/zero, "
         "dtype complex/float/int/mixed = real-dtype signal with complex-dtype noise attached after construction) x G_dB in [0,40] (incl. 0 and 40) x NF_dB in [3,10] x gv set explicitly in every form ((sps,R), (sps,fs), (R,fs) incl. fs not a multiple of R, fs alone; with/without slot count N; wavelength) x numpy seed; "
-        "plus chains of two amplifiers (second stage fed with the first stage's output object, draws of both spied), BW cases (BW partly from a small fixed set so that it recurs under different sampling rates; reference = Bessel filter designed afresh by scipy for the rate in force), BW histories (one BW under 2-3 sampling rates in sequence and back, within one process), non-optical inputs (ndarray, electrical_signal, list, scalar, None, binary_sequence) and "
+        "plus long records (65537, 100003, 131073 samples; per-sample ASE bookkeeping), chains of two amplifiers (second stage fed with the first stage's output object, draws of both spied), BW cases (BW partly from a small fixed set so that it recurs under different sampling rates; reference = Bessel filter designed afresh by scipy for the rate in force), BW histories (one BW under 2-3 sampling rates in sequence and back, within one process), non-optical inputs (ndarray, electrical_signal, list, scalar, None, binary_sequence) and "
         "ASE soaks of 2^16..2^18 samples. non-trivial = accepted call with N>=2, non-zero field; distinct by (n_pol, noise kind, dtype, N, G, NF, gv)")
 PARTIAL = [
     "sample ASE power = P_ase, zero mean, equal variance P_ase/4 of the four real components and their mutual independence: "
@@ -146,6 +146,16 @@ def gen_cases(rng, tier):
         G, NF = _gnf(rng)
         cases.append({"kind": "edfa_bad", "bad": b, "field": None, "G": G, "NF": NF, "BW": None, "gv": _gvspec(rng),
                       "np_seed": rng.randrange(1 << 31)})
+    # long records (beyond 2^16 samples, lengths that are not multiples of a power of two): every sample of the noise part must
+    # carry its ASE — per-sample reconstruction from the spied draw; fields are built from a numpy seed, only summaries are kept
+    longs = [65537, 100003, 131073] if tier == "quick" else [65537, 65536, 98304, 100003, 131072, 131073, 147456, 200000]
+    for n in longs:
+        for npol in (1, 2):
+            cases.append({"kind": "edfa_long", "field": {"npol": npol, "n": n, "dtype": "complex", "sig": None, "noise": None,
+                                                         "noise_kind": rng.choice(["none", "random", "zero"]), "seed": rng.randrange(1 << 31),
+                                                         "scale": rng.choice([1.0, 1e-2])},
+                          "G": rng.choice([20.0, 40.0, 3.0, rng.uniform(1, 40)]), "NF": rng.uniform(3, 10), "BW": None, "gv": _gvspec(rng),
+                          "np_seed": rng.randrange(1 << 31)})
     soaks = [(1 << 16, 1)] if tier == "quick" else [(1 << 16, 6), (1 << 18, 3)]
     for n, k in soaks:
         for _ in range(k):
@@ -212,6 +222,93 @@ def _dumps_equal(a, b):
     return a.get("shape") == b.get("shape")
 
 
+LONG_WINDOW = 4096
+
+
+def _run_long(case, res):
+    """a long record: per-sample bookkeeping done here with numpy on the real output, only summaries are returned"""
+    from opticomlib.typing import gv, optical_signal
+    from opticomlib.devices import EDFA
+    import scipy.constants as sc
+    g_ = case["gv"]
+    _gv_apply(g_)
+    res.update(h=float(sc.h), f0=float(gv.f0), fs=float(gv.fs), fs_req=_fs_req(g_), sps_R=float(gv.sps) * float(gv.R))
+    fl = case["field"]
+    n, npol = fl["n"], fl["npol"]
+    rs = np.random.RandomState(fl["seed"])
+    shape = (n,) if npol == 1 else (2, n)
+    sig = (rs.standard_normal(shape) + 1j * rs.standard_normal(shape)) * fl["scale"]
+    noise = None
+    if fl["noise_kind"] == "random":
+        noise = (rs.standard_normal(shape) + 1j * rs.standard_normal(shape)) * 0.3 * fl["scale"]
+    elif fl["noise_kind"] == "zero":
+        noise = np.zeros(shape, dtype=complex)
+    x = optical_signal(sig.copy(), None if noise is None else noise.copy())
+    orig = np.random.randn
+    rec = []
+
+    def spy(*shp):
+        v = orig(*shp)
+        rec.append(v)
+        return v
+    np.random.seed(case["np_seed"])
+    np.random.randn = spy
+    try:
+        y, err = _call(EDFA, x, case["G"], case["NF"])
+    finally:
+        np.random.randn = orig
+    res["calls"] = [{"shape": [int(k) for k in v.shape]} for v in rec]
+    if err:
+        res["main"] = err
+        return
+    ys, yn = np.asarray(y.signal), (None if y.noise is None else np.asarray(y.noise))
+    res["main"] = {"status": "ok", "cls": type(y).__name__, "npol": int(y.n_pol), "shape": list(ys.shape),
+                   "noise_shape": None if yn is None else list(yn.shape)}
+    if ys.shape != (2, n) or yn is None or yn.shape != (2, n):
+        return
+    g = math.sqrt(10.0 ** (case["G"] / 10.0))
+    P = _p_ase(case, res)
+    s = math.sqrt(P / 4) if P >= 0 else float("nan")
+    sg = sig if npol == 2 else np.array([sig, np.zeros(n, dtype=complex)])
+    nz = np.zeros((2, n), dtype=complex) if noise is None else (noise if npol == 2 else np.array([noise, np.zeros(n, dtype=complex)]))
+    L = {"n": n, "sig_err": float(np.max(np.abs(ys - g * sg))) if np.all(np.isfinite(ys)) else float("nan"),
+         "sig_scale": float(g * np.max(np.abs(sg)))}
+    resid = yn - g * nz                      # what is left of the noise part after the amplified incoming noise: the ASE
+    tolabs = 8 * 2.3e-16 * float(np.max(np.abs(g * nz)))
+    L["tolabs"] = tolabs
+    L["finite"] = bool(np.all(np.isfinite(yn)))
+    empty = np.abs(resid) <= tolabs
+    L["empty"] = [int(np.count_nonzero(empty[0])), int(np.count_nonzero(empty[1]))]
+    L["first_empty"] = [int(np.argmax(empty[k])) if empty[k].any() else None for k in (0, 1)]
+    tot = sum(int(v.size) for v in rec)
+    L["drawn"] = tot
+    if len(rec) == 1 and rec[0].shape == (4, n):
+        d = rec[0]
+        ref = np.array([s * (d[0] + 1j * d[2]), s * (d[1] + 1j * d[3])])
+        dev = np.abs(resid - ref)
+        L["ase_dev"] = float(np.max(np.where(np.isnan(dev), np.inf, dev)))
+        L["ase_dev_at"] = [int(k) for k in np.unravel_index(int(np.argmax(np.where(np.isnan(dev), np.inf, dev))), dev.shape)]
+        L["ase_mode"] = "per-sample"
+    elif tot == 4 * n:
+        dd = np.sort(np.abs(np.concatenate([v.ravel() for v in rec])))
+        comp = np.sort(np.abs(np.concatenate([resid.real.ravel(), resid.imag.ravel()])))
+        dev = np.abs(comp - s * dd)
+        L["ase_dev"] = float(np.max(np.where(np.isnan(dev), np.inf, dev)))
+        L["ase_dev_at"] = [int(np.argmax(np.where(np.isnan(dev), np.inf, dev)))]
+        L["ase_mode"] = "order-statistics"
+    else:
+        L["ase_dev"], L["ase_mode"] = None, "draw-not-4N"
+    L["dmax"] = float(max((np.max(np.abs(v)) for v in rec if v.size), default=0.0))
+    pw = np.abs(resid[0]) ** 2 + np.abs(resid[1]) ** 2
+    wins = []
+    for a in range(0, n, LONG_WINDOW):
+        w = pw[a:a + LONG_WINDOW]
+        if w.size >= 256:
+            wins.append([int(a), int(w.size), float(np.mean(w))])
+    L["windows"] = wins
+    res["long"] = L
+
+
 def _run_hist(case, res):
     """EDFA(x, G, NF, BW) with one BW under a sequence of sampling rates (gv re-configured in between, back to the first at the end)"""
     from opticomlib.typing import gv
@@ -276,6 +373,9 @@ def run_impl(case):
             warnings.simplefilter("ignore")
             if case["kind"] == "edfa_hist":
                 _run_hist(case, res)
+                return res
+            if case["kind"] == "edfa_long":
+                _run_long(case, res)
                 return res
             g = case["gv"]
             _gv_apply(g)
@@ -426,6 +526,8 @@ def model_requests(case, res):
     consts = " ".join([enc_f(case["G"]), enc_f(case["NF"]), enc_f(res["h"]), enc_f(res["f0"]), enc_f(res["fs"])])
     if case["kind"] == "edfa_bad":
         return ["edfa.run 0 " + consts + " 0 0 0 0"]
+    if case["kind"] == "edfa_long":
+        return []
     if case["kind"] == "soak":
         return ["edfa.pase " + " ".join([enc_f(case["NF"]), enc_f(case["G"]), enc_f(res["h"]), enc_f(res["f0"]), enc_f(res["fs"])])]
     if "draw" not in res:
@@ -567,6 +669,40 @@ def _oracle_ref(tag, un, bw, ref):
     return []
 
 
+def _oracle_long(case, res):
+    """long record: gain on the signal, and EVERY sample of out.noise - sqrt(G)*in.noise is a fresh draw times sqrt(P_ase/4)"""
+    v = []
+    m, fl = res["main"], case["field"]
+    n = fl["n"]
+    tag = f"N={n}, n_pol={fl['npol']}, incoming noise {fl['noise_kind']}, G={case['G']:.4g} dB: "
+    if m["status"] != "ok":
+        return [("C10:accept", tag + f"EDFA rejected a valid optical input: {str(m)[:160]}")]
+    if m["cls"] != "optical_signal" or m["npol"] != 2 or m["shape"] != [2, n] or m["noise_shape"] != [2, n]:
+        return [("C10:layout", tag + f"output {m['cls']} n_pol={m['npol']} shape={m['shape']} noise_shape={m['noise_shape']}")]
+    L = res.get("long")
+    if not L:
+        return [("C10:harness", tag + "no summary")]
+    P = _p_ase(case, res)
+    s = math.sqrt(P / 4)
+    if not (L["sig_err"] <= 1e-12 * L["sig_scale"]):
+        v.append(("C10:signal-gain:x", tag + f"signal is not sqrt(G)*input on the present polarisations / zero on y (max diff {L['sig_err']:.3e})"))
+    if not L["finite"]:
+        v.append(("C10:non-finite", tag + "the noise part contains NaN/inf"))
+    if P > 0 and (L["empty"][0] or L["empty"][1]):
+        k = 0 if L["empty"][0] else 1
+        v.append(("C10:ase-missing", tag + f"{L['empty'][0]} x-samples and {L['empty'][1]} y-samples of the noise part carry no ASE at all "
+                                         f"(out.noise - sqrt(G)*in.noise = 0, first at index {L['first_empty'][k]} of polarisation {'xy'[k]}); "
+                                         f"{L['drawn']} standard-normal values were drawn for 4*{n} real components"))
+    if L["ase_dev"] is not None and not (L["ase_dev"] <= 1e-9 * s * L["dmax"] + L["tolabs"]):
+        v.append(("C10:ase-scale", tag + f"({L['ase_mode']}) out.noise - sqrt(G)*in.noise is not the unit-variance draws times sqrt(P_ase/4) = {s:.6g}: "
+                                       f"deviation {L['ase_dev']:.3e} at {L['ase_dev_at']}"))
+    for a, w, pm in L["windows"]:
+        if not (abs(pm - P) <= 6 * P / math.sqrt(2 * w)):
+            v.append(("C10:ase-power:window", tag + f"samples {a}..{a + w - 1}: mean ASE power {pm:.6g}, documented {P:.6g} (6 sigma = {6 * P / math.sqrt(2 * w):.3g})"))
+            break
+    return v
+
+
 def oracle(case, res):
     v = []
     if res.get("status") != "ok":
@@ -588,6 +724,8 @@ def oracle(case, res):
     for path, part, row, idx in F.nonfinite_outputs({k: res[k] for k in ("main", "twin", "bw", "bpf", "steps") if k in res})[:3]:
         # every generated input is finite, G/NF/gv inside the statement's ranges: the documented formulas give finite outputs
         v.append(("C10:non-finite", f"{path}: {part} row {row} sample {idx} is NaN/inf although all inputs are finite"))
+    if case["kind"] == "edfa_long":
+        return v + _oracle_long(case, res)
     if case["kind"] == "edfa_hist":
         for st in res.get("steps", []):
             tag = f"call {st['i']} of the history {[g['sps'] * g['R'] for g in case['seq']]} (fs={st.get('fs', 0):.4g}, BW={case['BW']:.4g})"
@@ -710,6 +848,8 @@ def features(case, res):
     f = ["kind=" + case["kind"], "status=" + str(res.get("status"))]
     m = res.get("main", {})
     f.append("result=" + str(m.get("status")) + (":" + m["err"] if m.get("status") == "err" else ""))
+    if case["kind"] == "edfa_long":
+        f.append("long:" + str((res.get("long") or {}).get("ase_mode")))
     if case["kind"] == "edfa_hist":
         f.append(f"history={len(case['seq'])}")
         for st in res.get("steps", []):
@@ -743,6 +883,8 @@ def nontrivial_key(case, res):
     fl = case["field"]
     if fl["n"] < 2:
         return None
+    if case["kind"] == "edfa_long":
+        return ("edfa_long", fl["npol"], fl["n"], fl["noise_kind"], case["G"], case["NF"])
     if fl["sig"] is not None and not any(abs(re) + abs(im) > 0 for row in fl["sig"] for re, im in row):
         return None
     g = case["gv"]
